@@ -53,7 +53,7 @@ def make_systems(seat: int, rnd, dec: Decisions, style: Dict[str, Any],
             script = style.get('script')
             board = holder['client'].board_num
             th = style.get('think')
-            if th and th['board'] == board and ncalls == th.get('at', 0) and not holder.get('thought'):
+            if th and th['board'] == board and ncalls >= th.get('at', 0) and not holder.get('thought'):
                 # this seat's program takes its time (virtual seconds) over one call
                 holder['thought'] = True
                 holder['sched'].clock += th['seconds']
@@ -252,7 +252,9 @@ class _Table:
             self.outpath.unlink()
         if cfg.get('stale_output'):
             # the output path already holds the complete log of an earlier session
-            self.outpath.write_text('{"logs": [\n{"board_id": "stale-1"},\n{"board_id": "stale-2"}\n]}')
+            # (a LONG one: longer than anything this session will write)
+            self.outpath.write_text('{"logs": [\n' + ',\n'.join(
+                '{"board_id": "stale-%d", "note": "%s"}' % (j, 'x' * 900) for j in range(400)) + '\n]}')
         self.end_snapshots: List[Optional[str]] = []
         self.at_stuck: Dict[str, Any] = {}
         self.at_main_return: Dict[str, Any] = {}
